@@ -9,6 +9,7 @@ From Gen Require Import M_base M_Angle M_Epoch M_Interpolation M_Coordinates M_E
 From Proofs.C08 Require Import C08_base C08_obliquity C08_sun C08_j2000.
 From Proofs.C08 Require C08_angle2 C08_frames C08_equinox C08_coarse C08_node.
 From Proofs.C08 Require C08_nut_angle C08_nut_loop C08_nut_main C08_nut_bound.
+From Proofs.C08 Require C08_true.
 From Gen Require Import M_Moon.
 Import ListNotations.
 Open Scope R_scope.
@@ -191,11 +192,12 @@ Theorem C08_moon_node_constants : forall t, C08_node.node_moon t =
   125.0445479 + (-1934.1362891 + (0.0020754 + (1 / 476441 - t / 60616000) * t) * t) * t.
 Proof. exact C08_node.node_moon_eq. Qed.
 
-(* [spec, Moon side bridged by C08_moon_node_closed_form; nutation side NOT bridged in this file]
-   node_nutation is the node polynomial written inside nutation_longitude / nutation_obliquity
-   (Coordinates.py:398, :473) with the translator's literals - the fifth fundamental argument of the
-   structure theorem of the nutation series (C08_nut_main.v, polyO, the same term); it agrees with the
-   Moon module's node polynomial to 0.0024 degree within 20 centuries of J2000.0 *)
+(* node_nutation is the node polynomial written inside nutation_longitude / nutation_obliquity
+   (Coordinates.py:398, :473) with the translator's literals.  Both sides are tied to the generated
+   code: the Moon side by C08_moon_node_closed_form, the nutation side because node_nutation is the
+   fifth fundamental argument polyO of the structure theorems of the generated nutation series
+   (C08_nutation_longitude/obliquity_structure; C08_nutation_remainders states polyO = node_nutation).
+   The two polynomials agree to 0.0024 degree within 20 centuries of J2000.0 *)
 Theorem C08_node_agreement : forall t, -20 <= t <= 20 ->
   Rabs (C08_node.node_nutation t - C08_node.node_moon t) <= 24 / 10000.
 Proof. exact C08_node.node_agreement. Qed.
@@ -282,6 +284,17 @@ Theorem C08_nutation_obliquity_main_term : forall j, Rabs (C08_nut_main.Tc j) <=
                  * cos (C08_node.node_moon (C08_nut_main.Tc j) * (PI / 180)) / 10000) <= 15 / 10.
 Proof. exact C08_nut_bound.nutation_obliquity_clause. Qed.
 
+(* true obliquity for an Epoch within 20 centuries of J2000.0, with NO assumption on the callees: both
+   results are supplied by their own characterisation theorems, so the premises of
+   C08_true_obliquity_is_sum are jointly satisfiable by what the model really returns *)
+Theorem C08_true_obliquity_closed : forall j, Rabs (C08_nut_main.Tc j) <= 20 ->
+  exists deps,
+    f_nutation_obliquity Rops (VTuple [epoch j]) (VDict []) = ang (deps / 3600) /\
+    f_mean_obliquity Rops (VTuple [epoch j]) (VDict []) = ang (eps0 + laskar (uj j) / 3600) /\
+    f_true_obliquity Rops (VTuple [epoch j]) (VDict []) = ang (eps0 + laskar (uj j) / 3600 + deps / 3600) /\
+    Rabs deps <= 11.
+Proof. exact C08_true.true_obliquity_closed. Qed.
+
 Redirect "C08_rectangular_j2000_norm.assumptions" Print Assumptions C08_rectangular_j2000_norm.
 Redirect "C08_mean_obliquity_polynomial.assumptions" Print Assumptions C08_mean_obliquity_polynomial.
 Redirect "C08_mean_obliquity_vs_IAU.assumptions" Print Assumptions C08_mean_obliquity_vs_IAU.
@@ -313,3 +326,4 @@ Redirect "C08_nutation_obliquity_structure.assumptions" Print Assumptions C08_nu
 Redirect "C08_nutation_remainders.assumptions" Print Assumptions C08_nutation_remainders.
 Redirect "C08_nutation_longitude_main_term.assumptions" Print Assumptions C08_nutation_longitude_main_term.
 Redirect "C08_nutation_obliquity_main_term.assumptions" Print Assumptions C08_nutation_obliquity_main_term.
+Redirect "C08_true_obliquity_closed.assumptions" Print Assumptions C08_true_obliquity_closed.
